@@ -107,6 +107,9 @@ def run_one(seed, preset=None, tier="quick", want_case=False):
     r["metrics"] = {"rewrites_available": total, "rewrites_executed": n_exec}
     r["faults"] = {"rule:" + k: v for k, v in per_rule.items()}
     r["probes"] = {"site:" + k: v for k, v in sites.items()}
+    if viol:
+        from simv.model.document import doc_to_json
+        r["doc_model"] = doc_to_json(case.doc)
     if want_case or viol:
         c = case.render()
         c["engine_config"] = cfg
